@@ -39,6 +39,7 @@ RULE = ('random flat netlists (1-7 input bits, 1-5 output bits, 0-3 flip-flops/l
         'distinct = (format, library, branchforks, text); non-trivial = at least 3 statements and an output that takes both values')
 
 VLIBS = ['NANGATE', 'SAED32', 'SAED90', 'GSC180']
+TEXT_FMTS = ('bench',)      # formats whose lexer + grammar are modelled in Lean (Model/BenchText.lean, Model/VerilogText.lean)
 
 
 def theorems():
@@ -253,7 +254,8 @@ def eval_case(case):
 
 # ---------------------------------------------------------------------------------------------- model side (driver)
 def pct(s):
-    return ''.join(ch if (ch.isalnum() and ch.isascii()) or ch == '_' else '%%%02x' % ord(ch) for ch in s) or '%'
+    return ''.join(ch if (ch.isalnum() and ch.isascii()) or ch == '_' else ('%%%02x' % ord(ch) if ord(ch) < 256 else '%%u%06x' % ord(ch))
+                   for ch in s) or '%'
 
 
 def enc_sel(a):
@@ -367,7 +369,9 @@ def probe_cfg():
 
 def model_answer(case):
     """the Lean model's (status, io, nodes, lines, conn) for the case's statement list"""
-    if case['fmt'] == 'verilog':
+    if case.get('_req'):
+        req = case['_req']
+    elif case['fmt'] == 'verilog':
         kinds = [s[1] for s in case['ast']['stmts'] if s[0] == 'inst']
         fix, one = probe_cfg()
         cfg = f"{1 if case['bf'] else 0}{1 if fix else 0}{1 if one else 0}"
@@ -404,6 +408,121 @@ def correspondence(ck, case, c):
 
 def _slim(case):
     return {k: v for k, v in case.items() if not k.startswith('_')}
+
+
+# ---------------------------------------------------------------------------------------------- text level (lexer + grammar)
+_glark = {}
+
+
+def grammar_parser(fmt):
+    """lark on the REAL grammar string without the transformer: accepts exactly the texts bench.parse / verilog.parse accept
+    syntactically and returns the parse tree"""
+    if fmt not in _glark:
+        from lark import Lark
+        from kyupy import verilog, bench
+        _glark[fmt] = Lark((verilog if fmt == 'verilog' else bench).GRAMMAR, parser='lalr')
+    return _glark[fmt]
+
+
+def bench_tree_stmts(tree):
+    out = []
+    for st in tree.children:
+        t = st.children[0]
+        if t.data == 'interface':
+            out.append(['intf', [str(x) for x in t.children[0].children]])
+        else:
+            out.append(['gate', str(t.children[0]), str(t.children[1]), [str(x) for x in t.children[2].children]])
+    return out
+
+
+TEXT_ALPHABET = list(' \t\n\r\f\x0b#()=,;.:[]{}\'\\/*-_aZf09xbdh"$+') + ['K', 'ſ', 'İ', 'é', ' ', ' ']
+SNIPPETS = ['# c\n', '#', '\r\n', '\r', '//x\n', '//', '/*x*/', '/*', '*/', '(*x*)', '(*', '*)', '\\', '\\e ', "1'b0", '[0]', '[1:0]',
+            'INPUT', 'input', 'OUTPUT(', 'module', 'endmodule', 'wire', 'assign', ' = ', '()', '{', '}', ';', ',,', 'tri t;']
+
+
+def mutate_text(rng, text):
+    """one small edit of a text: (text', label)"""
+    op = rng.choice(['delete', 'delete', 'insert', 'insert', 'replace', 'swap', 'snippet', 'cut', 'dup', 'truncate', 'join-lines'])
+    n = len(text)
+    if n == 0: return rng.choice(TEXT_ALPHABET), 'insert'
+    i = rng.randrange(n)
+    if op == 'delete': return text[:i] + text[i + 1:], op
+    if op == 'insert': return text[:i] + rng.choice(TEXT_ALPHABET) + text[i:], op
+    if op == 'replace': return text[:i] + rng.choice(TEXT_ALPHABET) + text[i + 1:], op
+    if op == 'swap' and i + 1 < n: return text[:i] + text[i + 1] + text[i] + text[i + 2:], op
+    if op == 'snippet': return text[:i] + rng.choice(SNIPPETS) + text[i:], op
+    if op == 'cut':
+        j = min(n, i + rng.randint(1, 6)); return text[:i] + text[j:], op
+    if op == 'dup':
+        j = min(n, i + rng.randint(1, 4)); return text[:j] + text[i:j] + text[j:], op
+    if op == 'truncate': return text[:i], op
+    if op == 'join-lines':
+        k = text.find('\n', i)
+        if k >= 0: return text[:k] + text[k + 1:], op
+    return text[:i] + rng.choice(TEXT_ALPHABET) + text[i:], 'insert'
+
+
+def text_check(ck, fmt, text, tlib, bf, label, expect_ast=None):
+    """the Lean text model (lexer + grammar, driver `benchparse` / `verilogparse`) against lark on the real grammar and against
+    the real parser on ONE text: both accept or both reject; same statement list; and the model circuit built from the model's
+    OWN parse of the text equals the real circuit (or both raise).  returns 'accept' / 'reject'"""
+    from lark.exceptions import UnexpectedInput
+    inp = {'fmt': fmt, 'tlib': tlib, 'bf': bf, 'text': text, 'label': label}
+    try:
+        ans = common.run_driver([f"{'benchparse' if fmt == 'bench' else 'verilogparse'} {pct(text)}"])[0]
+    except Exception as ex:
+        ck.broken_tie(f'text model ({fmt})', f'driver: {type(ex).__name__}: {ex}'[:300], inp=inp); return 'error'
+    m_ok = ans.startswith('ok ')
+    try:
+        tree = grammar_parser(fmt).parse(text); l_ok = True
+    except UnexpectedInput as ex:
+        tree = None; l_ok = False; lerr = f'{type(ex).__name__} at {getattr(ex, "pos_in_stream", "?")}'
+    if m_ok != l_ok:
+        ck.broken_tie(f'text model ({fmt}): accept/reject', f"lark {'accepts' if l_ok else 'rejects (' + lerr + ')'}, model answers {ans[:80]!r}", inp=inp)
+        return 'accept' if l_ok else 'reject'
+    case = {'fmt': fmt, 'tlib': tlib, 'bf': bf, 'text': text, 'label': label}
+    if not l_ok:
+        try:
+            parse_real(case)
+            ck.broken_tie(f'text model ({fmt}): accept/reject', 'grammar rejects the text but the real parser returned a circuit', inp=inp)
+        except Exception:
+            pass
+        return 'reject'
+    if fmt == 'bench':
+        toks = ans[3:]
+        ltoks = enc_bench(bench_tree_stmts(tree))
+        if toks != ltoks:
+            ck.broken_tie('text model (bench): statement list', f'lark tree {ltoks[:200]!r} != model {toks[:200]!r}', inp=inp); return 'accept'
+        if expect_ast is not None and enc_bench(expect_ast) != toks:
+            ck.broken_tie('text model (bench): statement list', f'generator {enc_bench(expect_ast)[:200]!r} != model {toks[:200]!r}', inp=inp)
+        case['_req'] = f'netlist b {toks}'
+    else:
+        r = verilog_text_request(ck, ans, tree, tlib, bf, inp, expect_ast)
+        if r is None: return 'accept'
+        case['_req'] = r
+    try:
+        c = parse_real(case)
+    except Exception:
+        c = None
+    correspondence(ck, case, c)
+    return 'accept'
+
+
+def text_stream(ck, case, n_mut):
+    """text-level correspondence on one generated text and `n_mut` small edits of it"""
+    fmt = case['fmt']
+    st = text_check(ck, fmt, case['text'], case['tlib'], case['bf'], 'generated', expect_ast=case.get('ast'))
+    ck.hist[f'text:{fmt}:generated:{st}'] += 1
+    for _ in range(n_mut):
+        t, op = mutate_text(ck.rng, case['text'])
+        if ck.rng.random() < 0.25: t, op2 = mutate_text(ck.rng, t); op = op + '+' + op2
+        st = text_check(ck, fmt, t, case['tlib'], case['bf'], 'edit:' + op)
+        ck.hist[f'text:{fmt}:edited:{st}'] += 1
+        ck.case(key=('text', fmt, t), nontrivial=False, tag=[f'text-edit:{op.split("+")[0]}:{st}', 'stream:text'])
+
+
+def verilog_text_request(ck, ans, tree, tlib, bf, inp, expect_ast):
+    return None
 
 
 # ---------------------------------------------------------------------------------------------- case construction
@@ -450,6 +569,7 @@ def run_netlist(ck, nl, cases, notes):
         except Exception as ex:
             c = None
         correspondence(ck, case, c)
+        if case['fmt'] in TEXT_FMTS: text_stream(ck, case, 3)
         try:
             ok, obs, exp = eval_case(case)
         except Exception as ex:
@@ -631,6 +751,7 @@ def odd_stream(ck, n, notes):
             except Exception as ex:
                 c = None; status = 'raises'
             correspondence(ck, odd, c)
+            if odd['fmt'] in TEXT_FMTS: text_stream(ck, odd, 1)
             ck.case(key=('odd', odd['fmt'], odd['text']), nontrivial=False, tag=[f'odd:{label}:{status}', 'stream:odd'])
             done += 1
 
